@@ -477,6 +477,28 @@ impl<B: Backend> Allocated<B> {
     }
 }
 
+/// Verification hooks (`--cfg hipstr_verif`).
+#[cfg(hipstr_verif)]
+impl<B: Backend> Allocated<B> {
+    /// Returns `(owner buffer address, owner vec length, owner vec capacity,
+    /// inner box address, share count)`.
+    pub fn verif_owner_info(&self) -> (usize, usize, usize, usize, usize) {
+        let owner = self.owner();
+        (
+            owner.as_ptr() as usize,
+            owner.len(),
+            owner.capacity(),
+            self.owner.0 & !MASK,
+            owner.ref_count(),
+        )
+    }
+
+    /// Forces the share count of the owner.
+    pub fn verif_force_share_count(&self, shares: usize) {
+        self.owner().verif_set_count(shares);
+    }
+}
+
 #[cfg(test)]
 mod tests {
     use alloc::vec;
